@@ -1295,8 +1295,13 @@ func (t *itype) finalize() (*itype, error) {
 }
 
 func (t *itype) addMethod(n *node) {
-	for _, m := range t.method {
+	for i, m := range t.method {
 		if m == n {
+			return
+		}
+		if m.ident == n.ident {
+			// A method declared again, by a later evaluation, replaces the previous one.
+			t.method[i] = n
 			return
 		}
 	}
